@@ -13,6 +13,12 @@ Orient(a, b, p) == Sign((b[1] - a[1]) * (p[2] - a[2] * p[3]) - (b[2] - a[2]) * (
 Between(lo, hi, x, w) == Min2(lo, hi) * w <= x /\ x <= Max2(lo, hi) * w
 OnSeg2(a, b, p) == Orient(a, b, p) = 0 /\ Between(a[1], b[1], p[1], p[3]) /\ Between(a[2], b[2], p[2], p[3])
 
+\* closed segment with Cartesian integer endpoints a, b (any dimension); p homogeneous with w > 0
+OnSegN(a, b, p) == LET w == W(p) u == VSub(b, a) v == VSub(AffPart(p), VScale(w, a)) IN
+   /\ w > 0
+   /\ Proportional(u, v) /\ (IsZeroV(v) \/ (0 <= Dot(u, v) /\ Dot(u, v) <= w * Norm2(u)))
+OnSegN3(a, b, p) == OnSegN(a, b, p)
+
 NextIdx(poly, i) == IF i = Len(poly) THEN 1 ELSE i + 1
 OnBoundary2(poly, p) == \E i \in DOMAIN poly : OnSeg2(poly[i], poly[NextIdx(poly, i)], p)
 \* winding number: upward crossings to the left of p minus downward crossings
